@@ -322,16 +322,41 @@ func needsGroup(t string) bool {
 	return false
 }
 
+// hand-written programs that every run includes: segments whose optimised alternation begins with
+// a group and ends with a group without being ONE group, next to other segments
+func generateCorpus() []*Prog {
+	e := func(t string) *Item { return &Item{Kind: "entry", Text: t} }
+	cat := &Item{Kind: "concat"}
+	blk := func(kids ...*Item) *Item { return &Item{Kind: "assemble", Kids: kids} }
+	mk := func(flags string, items ...*Item) *Prog {
+		return &Prog{Flags: flags, Body: items, CfgMode: "absent", Files: map[string]*IncFile{}}
+	}
+	return []*Prog{
+		mk("", e("(?:ab|cd)x"), e("y(?:ef|gh)"), cat, e("z")),
+		mk("", e("w"), cat, e("(?:ab|cd)x"), e("y(?:ef|gh)"), cat, e("z")),
+		mk("", blk(e("(?:ab|cd)x"), e("y(?:ef|gh)")), cat, e("tail")),
+		mk("i", e("pre"), cat, blk(e("(?:ab|cd)+x"), e("y(?:ef|gh)?"), cat, e("q")), e("other")),
+		mk("", e("(?:a+|b)c"), e("d(?:e|f+)"), &Item{Kind: "store", Text: "s"}, e("m"), cat, &Item{Kind: "append", Text: "s"}),
+	}
+}
+
 var inlineFlagEntries = []string{"(?i:a)$", "(?i)foo$", "^(?s:.)x", "(?i:b).c$", "(?i:a)|^b", "x(?i:y)$", "(?s:.)$", "^(?i:q)", "(?i:a.)$", "(?is:a.)$"}
 
 func suiteGenerate(env *Env, res *Result, focus string) {
 	res.Rule = "well-formed assembly programs generated as trees (focus " + focus + ": entries from a regex grammar incl. quotes, backslashes, classes with \\s, anchors, hex escapes, non-ASCII; nested assemble/cmdline blocks to depth 3; ##!=> / ##!=< name / ##!=> name; prefixes, suffixes, flags i/s; include files with own prefixes/suffixes/definitions, nested includes; definitions incl. nested ones; toolchain.yaml present/partial/empty/malformed/absent), rendered with clean or messy layout, run through the built CLI (stdin and file argument) and through the Gallina model with the rassemble.Join oracle; non-trivial = exit 0 with non-empty output; distinct by case hash. Oracles on the real output: language equivalence with the plain reading decided by the verified checker (vertical tab excluded), confirmed on Go's engine; shape predicates of C02; 3 fresh executions (C03); crash/hang (C19)"
 	r := NewRng(env.Seed + 100 + uint64(len(focus)))
 	n := env.N(150, 6000)
+	corpus := generateCorpus()
+	n += len(corpus)
 	runs := make([]*genRun, n)
 	for i := 0; i < n; i++ {
 		rr := r.Fork()
-		p := genProg(rr, focus)
+		var p *Prog
+		if i < len(corpus) {
+			p = corpus[i]
+		} else {
+			p = genProg(rr, focus)
+		}
 		p.normalise()
 		if rr.Chance(1, 10) {
 			// a hand-written inline flag group next to a metacharacter that needs another flag: the
